@@ -17,7 +17,15 @@ RULE = ("histories of 1..12 operations applied in turn to one tree object, drawn
         "current tree.  Starting trees: rooted / unrooted / multifurcating, 3..14 tips, parent slots anywhere, lengths "
         "all / mixed / none, supports, named inner nodes, comments.  After EVERY step: pointer-level audit, enumerations, "
         "Newick text re-read by the reference reader, exact structural equality with the model state.  The history stops at "
-        "the first refusal.  thorough: every history of length <= 2 over a fixed alphabet of 32 operation instances on every "
+        "the first refusal (or on a structure that fails the audit).  Starting trees of 30% of the random histories carry "
+        "single-child inner nodes in every configuration (2-4 single-child siblings under one parent, both children of a "
+        "rooted root, chains, above tips, random), with RemoveSingleNodes / prune / unroot / collapse early in the history; "
+        "20% contain a KEPT rearrangement: nni_hold (Apply, the object returned by the rearranger is kept), 0-3 sort / rotate "
+        "steps, nni_release (Undo of the same object); prunes that keep exactly two tips or exactly one tip.  Families: "
+        "every shape <= 4 tips x 4 single-child configurations x all histories of length <= 2 (sampled in quick); every "
+        "shape with 4-5 tips x hold(k = 0..5) x {nothing, sort, rotate, rotate+sort} x release.  Oracle additionally: a "
+        "successful edit does not leave a tip as the root (except SubTree, UnRoot of the two-tip tree, trees already rooted "
+        "at a tip); the oracle is evaluated on Go's result also when the model refuses the step.  thorough: every history of length <= 2 over a fixed alphabet of 36 operation instances on every "
         "rooted/unrooted/multifurcating shape with <= 5 tips (266 shapes), every history of length 3 on the 3-tip shapes, plus 20000 "
         "random histories.  meta n_<op> = number of steps "
         "of that operation in the generated history; outcome tag = full | stop@<operation that refused>, with the share of "
@@ -48,10 +56,11 @@ MATCHERS = {}
 
 NEEDS_INDEX = {"graft", "insert", "merge", "collapse_depth", "prune"}
 OPS = ["reroot", "unroot", "outgroup", "midpoint", "rotate", "sort", "prune", "collapse_len", "collapse_sup",
-       "collapse_depth", "resolve", "rmsingle", "graft", "insert", "merge", "nni", "rename", "clone", "subtree"]
+       "collapse_depth", "resolve", "rmsingle", "graft", "insert", "merge", "nni", "rename", "clone", "subtree",
+       "nni_hold", "nni_release"]
 WEIGHTS = {"reroot": 12, "unroot": 5, "outgroup": 9, "midpoint": 4, "rotate": 5, "sort": 4, "prune": 8, "collapse_len": 4,
            "collapse_sup": 4, "collapse_depth": 4, "resolve": 6, "rmsingle": 4, "graft": 5, "insert": 5, "merge": 3,
-           "nni": 9, "rename": 5, "clone": 4, "subtree": 3}
+           "nni": 9, "rename": 5, "clone": 4, "subtree": 3, "nni_hold": 2, "nni_release": 2}
 
 def tip(k): return [Sym("tip"), k]
 def lit(s): return [Sym("lit"), s]
@@ -94,7 +103,12 @@ def rand_op(cx, name):
     elif name == "prune":
         r = rng.random()
         revert = False
-        if r < 0.65: names = [tip(K()) for _ in range(rng.randint(1, 3))]
+        if r < 0.55: names = [tip(K()) for _ in range(rng.randint(1, 3))]
+        elif r < 0.65:
+            # keep exactly two tips / exactly one tip
+            revert = True
+            a = K()
+            names = [tip(a), tip(a + rng.randint(1, 5))] if rng.random() < 0.7 else [tip(a)]
         elif r < 0.80: names = [clade(K())]
         elif r < 0.85: names = [tip(K()), lit("zz1")]
         else:
@@ -134,6 +148,8 @@ def rand_op(cx, name):
     elif name == "nni":
         o["k"] = K()
         o["undo"] = rng.random() < 0.3
+    elif name == "nni_hold":
+        o["k"] = K()
     elif name == "rename":
         r = rng.random()
         o["tip"] = tip(K()) if r < 0.93 else lit("I%d" % rng.randrange(1, 6))
@@ -157,10 +173,71 @@ def random_history(rng, g, maxlen=12):
     lenmode = rng.choice(["all", "all", "all", "mixed", "mixed", "none"])
     t = g.tree(lo=3, hi=14, maxdeg=5, lenmode=lenmode, supmode=rng.choice(["mixed", "mixed", "all", "none"]),
                inner_names=rng.random() < 0.3, comments=rng.random() < 0.2, up_random=rng.random() < 0.6)
+    singles = "none"
+    if rng.random() < 0.3:
+        t, singles = add_singles(rng, g, t)
     n = rng.randint(1, maxlen)
     names = rng.choices(OPS, weights=[WEIGHTS[o] for o in OPS], k=n)
+    if singles != "none" and rng.random() < 0.6:
+        # the operations that suppress single-child nodes, early in the history
+        names[rng.randrange(0, min(n, 3))] = rng.choice(["rmsingle", "rmsingle", "prune", "unroot", "collapse_len"])
+    if rng.random() < 0.2:
+        # a kept rearrangement: Apply, structure-preserving steps, Undo
+        blk = ["nni_hold"] + rng.choices(["sort", "rotate"], k=rng.randint(0, 3)) + ["nni_release"]
+        if rng.random() < 0.5:
+            blk = ["resolve"] + blk          # more binary nodes, more proposals
+        at = rng.randrange(0, n + 1)
+        names[at:at] = blk
+        names = names[:14]
     ops = [rand_op(cx, nm) for nm in names]
-    return {"sx": sx({"tree": T(t), "ops": ops}), "meta": meta_of(t, ops, "random")}
+    m = meta_of(t, ops, "random")
+    m["singles"] = singles
+    return {"sx": sx({"tree": T(t), "ops": ops}), "meta": m}
+
+# ---------------------------------------------------------------- single-child nodes in the starting tree
+
+def _wrap(rng, g, x, i, chain=1):
+    """put `chain` single-child nodes on the branch in slot i of node x"""
+    for _ in range(chain):
+        e, c = x["slots"][i]
+        def ln():
+            r = rng.random()
+            return None if r < 0.3 else (Fraction(0) if r < 0.4 else g.dyadic(256, 64))
+        e1 = {"len": ln(), "sup": g.support("mixed") if rng.random() < 0.5 else None, "pv": None, "coms": []}
+        e2 = {"len": ln(), "sup": e["sup"], "pv": e["pv"], "coms": e["coms"]}
+        slots = [None, (e2, c)]
+        if rng.random() < 0.5:
+            slots.reverse()
+        s = {"name": rng.choice(["", "", "", "S%d" % rng.randrange(1000)]), "coms": [], "slots": slots}
+        x["slots"][i] = (e1, s)
+
+def add_singles(rng, g, t, kind=None):
+    """single-child inner nodes in every configuration: several single-child siblings under one parent, both children
+    of a rooted root, chains, above tips, at random"""
+    t = _copy.deepcopy(t)
+    kind = kind or rng.choice(["siblings", "siblings", "rootkids", "chain", "abovetips", "random"])
+    parents = [x for x in preorder(t) if len(kids(x)) >= 2]
+    cidx = lambda x: [i for i, sl in enumerate(x["slots"]) if sl is not None]
+    if kind == "siblings":
+        x = rng.choice(parents)
+        ci = cidx(x)
+        for i in rng.sample(ci, rng.randint(2, min(4, len(ci)))):
+            _wrap(rng, g, x, i, chain=rng.choice([1, 1, 2]))
+    elif kind == "rootkids":
+        for i in cidx(t):
+            _wrap(rng, g, t, i)
+    elif kind == "chain":
+        x = rng.choice(parents)
+        _wrap(rng, g, x, rng.choice(cidx(x)), chain=rng.randint(2, 4))
+    elif kind == "abovetips":
+        cands = [(x, i) for x in parents for i in cidx(x) if not kids(x["slots"][i][1])]
+        for x, i in rng.sample(cands, min(len(cands), rng.randint(2, 4))):
+            _wrap(rng, g, x, i)
+    else:
+        for _ in range(rng.randint(1, 4)):
+            x = rng.choice([y for y in preorder(t) if kids(y)])
+            _wrap(rng, g, x, rng.choice(cidx(x)))
+    return t, kind
 
 # ---------------------------------------------------------------- exhaustive part: fixed alphabet of operation instances
 
@@ -195,6 +272,8 @@ def alphabet():
     op("prune", names=[tip(0)], revert=False)
     op("prune", names=[tip(1), tip(2)], revert=False)
     op("prune", names=[tip(0), tip(1), tip(2)], revert=True)
+    op("prune", names=[tip(0), tip(1)], revert=True)
+    op("prune", names=[tip(1)], revert=True)
     op("collapse_len", l=F(1, 2), rr=False, rt=False)
     op("collapse_sup", s=F(1, 2), rr=False)
     op("collapse_depth", min=2, max=2, rr=False, rt=False)
@@ -206,6 +285,8 @@ def alphabet():
     op("nni", k=0, undo=False)
     op("nni", k=1, undo=True)
     op("nni", reinit=False, k=3, undo=False)
+    op("nni_hold", reinit=False, k=0)
+    op("nni_release", reinit=False)
     op("rename", tip=tip(0), to="zz")
     op("clone")
     op("subtree", sel=Sym("inner"), i=1)
@@ -238,6 +319,35 @@ def exhaustive(rng, g, sizes, sample=None, maxlen=2):
             out.append({"sx": sx({"tree": tt, "ops": ops}), "meta": meta_of(t, ops, "exhaustive")})
     return out
 
+def held_family(rng, g, sizes, sample=None):
+    """Apply of the k-th proposal, one structure-preserving step (or none), Undo of the SAME rearrangement object"""
+    out = []
+    H = lambda k: {"op": Sym("nni_hold"), "reinit": k % 2 == 0, "k": k}
+    R = {"op": Sym("nni_release"), "reinit": False}
+    mids = [[], [{"op": Sym("sort"), "reinit": False}], [{"op": Sym("rotate"), "reinit": True, "seed": 11}],
+            [{"op": Sym("rotate"), "reinit": False, "seed": 12}, {"op": Sym("sort"), "reinit": True}]]
+    hist = [[H(k)] + m + [R] for k in range(6) for m in mids]
+    for t in small_shapes(rng, g, sizes):
+        tt = T(t)
+        for ops in (hist if sample is None else rng.sample(hist, sample)):
+            out.append({"sx": sx({"tree": tt, "ops": ops}), "meta": meta_of(t, ops, "held")})
+    return out
+
+def singles_family(rng, g, sizes, sample=None):
+    """every shape with single-child nodes added in each configuration x every history of length <= 2"""
+    A = alphabet()
+    out = []
+    hist = [[a] for a in A] + [[a, b] for a in A for b in A]
+    for t0 in small_shapes(rng, g, sizes):
+        for kind in ("siblings", "rootkids", "chain", "abovetips"):
+            t, _ = add_singles(rng, g, t0, kind)
+            tt = T(t)
+            for ops in (hist if sample is None else rng.sample(hist, sample)):
+                m = meta_of(t, ops, "singles")
+                m["singles"] = kind
+                out.append({"sx": sx({"tree": tt, "ops": ops}), "meta": m})
+    return out
+
 def gen(rng, tier):
     g = Gen(rng)
     out = []
@@ -247,6 +357,13 @@ def gen(rng, tier):
     if tier == "thorough":
         out += exhaustive(rng, g, [3, 4, 5])
         out += exhaustive(rng, g, [3], maxlen=3)
+        out += held_family(rng, g, [4, 5])
+        out += singles_family(rng, g, [3, 4])
     elif tier == "quick":
         out += exhaustive(rng, g, [3, 4], sample=8)
+        out += held_family(rng, g, [4, 5], sample=1)
+        out += singles_family(rng, g, [3, 4], sample=2)
+    else:
+        out += held_family(rng, g, [4], sample=2)
+        out += singles_family(rng, g, [3, 4], sample=2)
     return out
